@@ -112,7 +112,9 @@ def run_parts(manifest):
     ]
     pro_c = rewrite(";\n  ".join(stmts) + ";", rules_common, "hextb run prologue", manifest)
     c = {}
-    body = _drop_if_blocks(body, r"trace && top->i_clk && contextp->time\(\) > RESET_END", "TB_TRACE();", c, "trace block")
+    # the trace printing block: `if (trace && top->i_clk && <time expression> > RESET_END) {...}` (the time may be read
+    # through a local)
+    body = _drop_if_blocks(body, r"trace && top->i_clk && [\w>\-()]+ > RESET_END", "TB_TRACE();", c, "trace block")
     if c.get("trace block", 0) != 1:
         raise ExtractionError("hextb run(): trace block not found")
     body = rewrite(body, rules_common + [
@@ -179,7 +181,9 @@ def load_fn(manifest):
         (r"std::vector<uint32_t> buffer\(remainingFileSize\);", "size_t buffer_size = remainingFileSize; /* std::vector<uint32_t> buffer(remainingFileSize) */", 1, 1),
         (r"file\.read\(reinterpret_cast<char\*>\(buffer\.data\(\)\), remainingFileSize\);", "FILE_READ_BUFFER(remainingFileSize);", 1, 1),
         # zero fill of the whole RTL memory array (absent on trees where load() leaves the power-on contents in place)
-        (r"std::memset\(top->hex->u_memory->memory_q\.data\(\), 0, sizeof\(top->hex->u_memory->memory_q\)\);", "TB_MEMZERO_DUT(4u * (size_t)RTL_WORDS);", 0, 1),
+        (r"std::memset\(top->hex->u_memory->memory_q\.data\(\), 0, ([^;]*)\);", r"TB_MEMZERO_DUT(\1);", 0, 1),
+        (r"sizeof\(top->hex->u_memory->memory_q\)", "(4u * (size_t)RTL_WORDS)", 0),
+        (r"hex::MAX_MEMORY_SIZE_WORDS", "ISA_MEM_WORDS", 0),
         (r"std::memcpy\(top->hex->u_memory->memory_q\.data\(\), buffer\.data\(\), buffer\.size\(\)\);", "TB_MEMCPY_TO_DUT(buffer_size);", 1, 1),
         (r"std::cout << \"Wrote \" << programSize << \" bytes to memory\\n\";", "TB_BANNER(programSize);", 1, 1),
     ], "hextb load", manifest)
